@@ -4,13 +4,13 @@
 
 use crate::engine::{catch, Obs, Property, Verdict};
 use crate::gen::{self, Msg};
-use crate::props::{c02, c05, c09, c12, c13, c14};
+use crate::props::{c02, c04, c05, c09, c12, c13, c14};
 use crate::refmodel::hpke_ref::{AeadId, KdfId, KemId, Suite};
 use crate::suite::SerKind;
 use crate::util::Bytes;
 use arbitrary::Unstructured;
 
-pub const TARGETS: [&str; 4] = ["fz_deser", "fz_open", "fz_receiver", "fz_session"];
+pub const TARGETS: [&str; 5] = ["fz_deser", "fz_open", "fz_receiver", "fz_sender", "fz_session"];
 
 #[derive(Debug, Clone)]
 pub struct FuzzFailure {
@@ -143,6 +143,37 @@ pub fn fz_receiver(data: &[u8], info: &mut FuzzInfo) -> Option<FuzzFailure> {
     run(&c05::P, &c, info)
 }
 
+/// Sender histories (C04): seals through both forms, exports, hook jumps to positions chosen by the
+/// fuzzer (boundary table index or raw u64), bursts
+pub fn fz_sender(data: &[u8], info: &mut FuzzInfo) -> Option<FuzzFailure> {
+    let mut u = Unstructured::new(data);
+    let s0: u8 = u.arbitrary().ok()?;
+    let s1: u8 = u.arbitrary().ok()?;
+    let aead = AeadId::SEALING[(s0 % 3) as usize];
+    let kem = if s0 & 0x80 != 0 { KemId::P256 } else { KemId::X25519 };
+    let suite = Suite { kem, kdf: kdf_of(s0 >> 2), aead };
+    let sess = gen::cell_session(suite, s1 & 3, 0xf4);
+    let positions = gen::boundary_positions();
+    let mut ops = Vec::new();
+    while !u.is_empty() && ops.len() < 40 {
+        let k: u8 = u.arbitrary().unwrap_or(0);
+        let op = match k % 8 {
+            0 | 1 | 2 => {
+                let l = u.arbitrary::<u8>().unwrap_or(0) as usize % 64;
+                c04::Op::Seal { pt: Bytes(gen::fill(l, 9, k as u64)), aad: Bytes(gen::fill((k >> 4) as usize, 9, 5)), in_place: k & 0x40 != 0 }
+            }
+            3 => c04::Op::Export,
+            4 => c04::Op::JumpTo(positions[(u.arbitrary::<u8>().unwrap_or(0) as usize) % positions.len()]),
+            5 => c04::Op::JumpTo(u.arbitrary::<u64>().unwrap_or(0)),
+            6 => c04::Op::JumpTo(u64::MAX - (u.arbitrary::<u8>().unwrap_or(0) % 8) as u64),
+            _ => c04::Op::Burst(1 + (u.arbitrary::<u8>().unwrap_or(0) % 24) as u16),
+        };
+        ops.push(op);
+    }
+    let c = c04::Case { sess, spy: s1 & 4 != 0, ops };
+    run(&c04::P, &c, info)
+}
+
 pub fn fz_session(data: &[u8], info: &mut FuzzInfo) -> Option<FuzzFailure> {
     let mut u = Unstructured::new(data);
     let s0: u8 = u.arbitrary().ok()?;
@@ -202,6 +233,7 @@ pub fn fuzz_one(target: &str, data: &[u8], info: &mut FuzzInfo) -> Option<FuzzFa
         "fz_deser" => fz_deser(data, info),
         "fz_open" => fz_open(data, info),
         "fz_receiver" => fz_receiver(data, info),
+        "fz_sender" => fz_sender(data, info),
         "fz_session" => fz_session(data, info),
         _ => None,
     }
